@@ -287,6 +287,9 @@ def run(ctx: Ctx) -> None:
 
 G = "cartgraph/graph.py"
 MUTANTS = [
+    ("reversible-means-last-object", "cartgraph/node.py", "            if is_reversible:\n                break\n        else:\n            is_reversible = False", "            if not is_reversible:\n                break\n        else:\n            is_reversible = False", "r"),
+    ("picked-node-of-wrong-worker", "cartgraph/node.py", "                        if picked_worker.id in node.params[\"name\"]:\n                            picked_node = node", "                        if picked_worker.id not in node.params[\"name\"]:\n                            picked_node = node", "wp"),
+    ("picked-node-always-self", "cartgraph/node.py", "                if self.is_flat() or picked_worker.id in self.params[\"name\"]:\n                    picked_node = self", "                if not self.is_flat() or picked_worker.id in self.params[\"name\"]:\n                    picked_node = self", "wp"),
     ("own-requests-kept-in-sync-params", "cartgraph/node.py", "            if key.startswith(\"get_state\") or key.startswith(\"unset_state\"):\n                del node_params[key]", "            if not (key.startswith(\"get_state\") or key.startswith(\"unset_state\")):\n                del node_params[key]", "3c"),
     ("sync-without-should-clean", G, "        if test_node.should_clean(worker):\n\n            if len(test_node.get_stateful_objects()) > 0:\n                test_node.sync_states(params)",
      "        if len(test_node.get_stateful_objects()) > 0:\n                test_node.sync_states(params)\n        if test_node.should_clean(worker):\n            pass", "1"),
